@@ -399,6 +399,19 @@ func factsOf(gs []Guard) []Fact {
 			return
 		}
 		if b, ok := e.(*ast.BinaryExpr); ok {
+			// x == true / x != false / true == x …
+			if b.Op == token.EQL || b.Op == token.NEQ {
+				for _, pair := range [][2]ast.Expr{{b.X, b.Y}, {b.Y, b.X}} {
+					if id, isId := unparen(pair[1]).(*ast.Ident); isId && (id.Name == "true" || id.Name == "false") {
+						t := truth
+						if (id.Name == "false") != (b.Op == token.NEQ) {
+							t = !t
+						}
+						add(pair[0], t)
+						return
+					}
+				}
+			}
 			if b.Op == token.LAND && truth {
 				add(b.X, true)
 				add(b.Y, true)
